@@ -516,6 +516,12 @@ let handle kind c =
       diff "goMajorMinor" ~model:(string_of_bytes r) ~impl:"panic";
       prop "malformed-goversion" ("goMajorMinor panics on " ^ tok_of_bytes v ^ " (\"" ^ String.escaped (string_of_bytes v) ^ "\")")
     end else check_eq "goMajorMinor" string_of_bytes r res
+  | "expand" ->
+    let s = next_bytes c in
+    let ex = next_blist c in
+    let tc = next_bool c in
+    check_eq "Expand" (fun l -> String.concat "|" (List.map string_of_bytes l)) (expand s) ex;
+    if is_toolchain s <> tc then diff "IsToolchainProgram" ~model:(string_of_bool (is_toolchain s)) ~impl:(string_of_bool tc)
   | "split" ->
     let s = next_bytes c in
     let g = next_bytes c in
